@@ -1,4 +1,5 @@
 import RTV.Drv.Match
+import RTV.Drv.WellFormed
 import RTV.Drv.Unit
 import RTV.Drv.Num
 import RTV.Drv.ResGen
@@ -17,6 +18,7 @@ def dispatch (line : String) : String :=
   match line.splitOn "\t" with
   | op :: args =>
     (dispatchMatch op args
+      <|> dispatchWF op args
       <|> dispatchUnit op args
       <|> dispatchResGen op args
       <|> dispatchFactory op args
